@@ -45,7 +45,7 @@ XK = [
     ["XS", ["L", [T("sl1"), I([T("sl2")])]]],
 ]
 ITEMS = PLAIN + XK
-WRAPPERS = ["top", "block", "inline", "nested", "html-root", "displayed"]
+WRAPPERS = ["top", "block", "inline", "nested", "html-root", "displayed", "html-root-stored-head"]
 
 
 def expand(spec):
@@ -77,6 +77,10 @@ def wrap(items, wrapper):
     if wrapper == "html-root":
         # the document's sole content is the user's own <html>: hoisting must see the expansions
         return ["E", "html", True, [], [["E", "head", True, [], []], ["E", "body", True, [], items]]]
+    if wrapper == "html-root-stored-head":
+        # the <head> itself comes from a tagifiable object that hands out the same stored tag every time
+        return ["E", "html", True, [], [["XS", ["E", "head", True, [], [["E", "title", True, [], [T("t")]]]]],
+                                        ["E", "body", True, [], items]]]
     return B([I(items), T("tail"), B([])])
 
 
@@ -156,7 +160,7 @@ def fn(case):
         viols.append(("document:second-time", "HTMLDocument.render() of the same object differs the second time",
                       {"first": dr["html"], "second": dr2["html"]}))
     # JSON dependency render mode: str() must serialise the dependencies of the expansions too
-    if wrapper != "html-root":
+    if not wrapper.startswith("html-root"):
         assert htmltools.html_dependency_render_mode == "invisible"
         htmltools.html_dependency_render_mode = "json"
         try:
